@@ -1364,9 +1364,27 @@ impl<'a> Ctx<'a> {
                 }
             }
         }
+        // (C15: a document that was skipped leaves the documents after it alone)
+        let mut skipped_before = false;
         for (d, j) in self.obs.docs.iter().zip(judgements.iter()) {
             let main = &self.sc.docs[d.doc];
             let list = exec_list(self.sc, main);
+            if skipped_before && !j.run_fail && self.obs.exit_status != Some(1) {
+                for tj in &j.tests {
+                    let n = self.facts.delivered.get(&tj.nonce).map(|p| p.len()).unwrap_or(0);
+                    if tj.must_run == Some(true) && n == 0 {
+                        out.push(v(
+                            "C15",
+                            "other-document-affected-by-skip",
+                            Some(&tj.nonce),
+                            format!("test {} of {} never ran: an earlier document of the run was skipped, which concerns that document only", tj.nonce, main.path),
+                        ));
+                    }
+                }
+            }
+            if matches!(j.stop, Some(Stop::Skip(_))) {
+                skipped_before = true;
+            }
             // order: the sequence of delivery must follow document order
             let mut order: Vec<(u64, usize, String)> = vec![];
             for (k, (_, t)) in list.iter().enumerate() {
